@@ -14,6 +14,11 @@ Key pool (keys/sb31, read only): every slot (root0..root3, isk) x curve holds on
 full width, leading zero byte in X, in Y, in both (derived deterministically by keys/sb31/gen_keys.py).  The GEN specs give every root
 position and the ISK a class (case.rk, case.ik); the device's root-of-trust hash is computed here from the fixed-width coordinates.
 
+REQUEST x SUPPLY (Sb31Format!Givens, case field `given`): the constructors / the configuration take key material (part-common key, access
+rights) and ISK certificate material as OPTIONAL inputs next to the request (is_encrypted, ca_flag / useIsk).  The GEN specs enumerate every
+supply a request admits (tour G, tour P2; Sb31Build holds the matching construction mistakes "encrypts_when_..._supplied",
+"isk_certificate_when_supplied"); build() hands over what `given` says, requested or not.  The loader of a plain container holds no key.
+
 Python only DRIVES: it concretises the abstract cases, builds the containers through the real classes
 (SecureBinary31, SecureBinary31Commands, Cmd*, CertBlockV21) or - configuration lane - renders a configuration dictionary + files
 and calls SecureBinary31.load_from_config, exports, and lets the independent executor c05_rom
@@ -109,6 +114,48 @@ def isk_of(c):
     return kname("isk", c.get("ik") or "full")
 
 
+# ------------------------------------------------------------------ what is supplied next to what is requested
+def requested(c):
+    """Sb31Format!Requested: the supply that goes with the request and nothing else."""
+    return {"pck": c["pck"] if c["enc"] else 0, "rights": c["rights"] if c["enc"] else -1, "isk": bool(c["isk"])}
+
+
+def given_of(c):
+    """Sb31Format!Givens: what the caller hands the constructors - part-common key of `pck` bits (0: none), access rights (-1: none),
+    material of an ISK certificate - whether the request (enc, isk) asks for it or not.  What is requested must be supplied."""
+    g = c.get("given") or requested(c)
+    if (c["enc"] and (g["pck"] != c["pck"] or g["rights"] != c["rights"])) or (c["isk"] and not g["isk"]) or g["pck"] not in (0, 128, 256) \
+            or g["rights"] not in (-1, 0, 1, 2, 3):
+        raise Machinery(f"case outside the case space: request enc={c['enc']} pck={c['pck']} rights={c['rights']} isk={c['isk']}, supply {g}")
+    return g
+
+
+def supplied_text(c, values=True):
+    """Naming only: what is supplied although it is not requested ('' = nothing); values=False: the class (for finding keys)."""
+    g, out = given_of(c), []
+    if not c["enc"] and g["pck"]:
+        out.append(f"pck{g['pck']}")
+    if not c["enc"] and g["rights"] >= 0:
+        out.append(f"rights{g['rights']}" if values else "rights")
+    if not c["isk"] and g["isk"] and values:
+        out.append("isk-material")
+    return "+".join(out)
+
+
+def rng_key(case):
+    """Label of the random stream of a case.  The dimensions added later (given; configuration lane: k.rightsGiven, k.iskGiven) are left out
+    of the label where they hold their defaults, so that a case keeps the concrete values it always had."""
+    c = {k: v for k, v in case.items() if k not in ("given", "dsc")}
+    more = []
+    if given_of(case) != requested(case):
+        more.append(json.dumps(case["given"], sort_keys=True))
+    if case.get("dsc", "any") != "any":
+        more.append(case["dsc"])
+    if "k" in case:
+        c["k"] = {k: v for k, v in case["k"].items() if k not in ("rightsGiven", "iskGiven")}
+    return [json.dumps(c, sort_keys=True)] + more
+
+
 # ------------------------------------------------------------------ abstract case -> concrete input
 def word(r):
     k = r.randrange(8)
@@ -148,6 +195,15 @@ def concretise(case, r):
         ts=ts, fw=word(r), flags=word(r), desc="".join(chr(r.randrange(0x20, 0x7F)) for _ in range(dlen)),
         desc_none=(dlen == 0 and r.random() < 0.5), constraints=word(r) if case["isk"] else 0,
         udata=r.randbytes(case["ud"]).hex() if case["isk"] else "", cmds=[conc_cmd(ac, r) for ac in case["cmds"]])
+    if given_of(case)["isk"] and not case["isk"]:   # material of an ISK certificate that is supplied although no ISK is requested
+        c.update(g_constraints=word(r), g_udata=r.randbytes(r.choice([0, 4, 32])).hex())
+    dsc = case.get("dsc", "any")                    # the optional description as a dimension of the case ("any": drawn above)
+    if dsc not in ("any", "none", "empty", "text"):
+        raise Machinery(f"case with description class {dsc}")
+    if dsc in ("none", "empty"):
+        c.update(desc="", desc_none=dsc == "none")
+    elif dsc == "text":
+        c.update(desc="".join(chr(r.randrange(0x20, 0x7F)) for _ in range(r.choice([1, 5, 15, 16, 17, 20]))), desc_none=False)
     return c
 
 
@@ -163,7 +219,7 @@ def spec_inp(c, waive=()):
             "udSha": hashlib.sha256(ud).hexdigest()[:16] if c["isk"] else "", "constraints": W(c["constraints"]), "pckBits": c["pck"],
             "rights": c["rights"], "enc": c["enc"], "nxp": c["nxp"], "flags": W(c["flags"]), "fw": W(c["fw"]), "ts": rom.limbs(c["ts"], 4),
             "desc": [ord(x) for x in c["desc"]], "cmds": [spec_cmd(x) for x in c["cmds"]], "waive": list(waive),
-            "rk": list(c.get("rk") or ["full"] * c["nkeys"]), "ik": (c.get("ik") or "full") if c["isk"] else "full"}
+            "rk": list(c.get("rk") or ["full"] * c["nkeys"]), "ik": (c.get("ik") or "full") if c["isk"] else "full", "given": given_of(c)}
 
 
 def rom_env(c):
@@ -217,15 +273,18 @@ def build(c):
     p = pool()
     if "k" in c:  # configuration lane: rendered into a configuration dictionary + files, built by SecureBinary31.load_from_config
         return cfgl.build(c, p)
-    curve, used, roots, isk = c["curve"], c["used"], roots_of(c), isk_of(c)
+    curve, used, roots, isk, g = c["curve"], c["used"], roots_of(c), isk_of(c), given_of(c)
+    # the REQUEST: ca_flag (ISK / no ISK), is_encrypted.  The SUPPLY (g): key material and ISK certificate material are handed over
+    # whenever the case says so, requested or not
     cb = CertBlockV21(
         root_certs=[p.pub_pem[curve, k] for k in roots], ca_flag=not c["isk"], used_root_cert=used,
-        constraints=c["constraints"], signature_provider=p.sp(curve, roots[used]) if c["isk"] else None,
-        isk_cert=p.pub_pem[curve, isk] if c["isk"] else None, user_data=bytes.fromhex(c["udata"]) or None, family=FAMILY)
+        constraints=c["constraints"] if c["isk"] else c.get("g_constraints", 0), signature_provider=p.sp(curve, roots[used]) if g["isk"] else None,
+        isk_cert=p.pub_pem[curve, isk] if g["isk"] else None, user_data=bytes.fromhex(c["udata"] if c["isk"] else c.get("g_udata", "")) or None,
+        family=FAMILY)
     cb.calculate()
     sb = SecureBinary31(
         family=FAMILY, cert_block=cb, firmware_version=c["fw"], signature_provider=p.sp(curve, isk if c["isk"] else roots[used]),
-        pck=p.pck[c["pck"]] if c["enc"] else None, kdk_access_rights=c["rights"] if c["enc"] else None,
+        pck=p.pck[g["pck"]] if g["pck"] else None, kdk_access_rights=g["rights"] if g["rights"] >= 0 else None,
         description=None if c["desc_none"] else c["desc"], is_nxp_container=c["nxp"], flags=c["flags"], timestamp=c["ts"], is_encrypted=c["enc"])
     if c.get("via_set"):
         sb.sb_commands.set_commands([real_cmd(x) for x in c["cmds"]])
@@ -237,7 +296,7 @@ def build(c):
 
 def plan_of(case):
     """Abstract case -> concrete plan {conc, ops}; deterministic in (VERIF_SEED, case)."""
-    r = rng(PROP, "case", json.dumps(case, sort_keys=True))
+    r = rng(PROP, "case", *rng_key(case))
     if "k" in case:
         return {"case": case, "conc": cfgl.concretise(case, r), "ops": [{"op": op} for op in case["hist"]]}
     c = concretise(case, r)
@@ -346,6 +405,8 @@ def clause_of(t, matched):
     if k == "Section":
         cfg = f"sha{8 * t['case']['curve']}-pck{t['case']['pck']}{kform}" if t["inp"]["enc"] else "plain"
         if ev["uid"] != 1 or ev["type"] != 1:
+            if not t["inp"]["enc"]:   # no key is involved in reading a plain container: name what was supplied although not requested
+                return "Section/header-not-found-in-plain-container/supplied:" + (supplied_text(t["case"], values=False) or "nothing")
             return f"Section/header-not-found-after-decryption/{cfg}"
         if 16 + ev["len"] > ev["streamLen"]:
             return "Section/longer-than-the-data-blocks"
@@ -356,12 +417,22 @@ def clause_of(t, matched):
     return k + ("/" + false[0] if false else "")
 
 
+def clause_with_supply(t, matched):
+    """The clause, and - for a container WITHOUT ISK that was handed the material of an ISK certificate as well - that fact where the
+    certificate block / the signature is what fails (naming only)."""
+    cl = clause_of(t, matched)
+    c = t["case"]
+    if not c["isk"] and given_of(c)["isk"] and cl.split("/")[0] in ("RootKeyRecord", "IskCert", "CertBlockEnd", "VerifyBlock0", "Layout", "total_length"):
+        cl += "/supplied:isk-material"
+    return cl
+
+
 def finding_key(t, matched):
     if "k" in t["case"]:  # configuration lane
         cls = "config" if t["k"] == 1 else f"config/export#{t['k']}"
     else:
         cls = "build" if t["k"] == 1 else f"history/export#{t['k']}"
-    return f"C05/{cls}/{clause_of(t, matched)}"
+    return f"C05/{cls}/{clause_with_supply(t, matched)}"
 
 
 def describe(t, matched):
@@ -376,6 +447,11 @@ def describe(t, matched):
     kc = key_classes(c)
     how += (f" [value classes of the keys (leading zero byte in X / Y / both): root set {c.get('rk')}, ISK {c.get('ik') if c['isk'] else '-'}; pool keys "
             f"{roots_of(c)}{' + ' + isk_of(c) if c['isk'] else ''} in keys/sb31/p{c['curve'] * 8}]" if kc else "")
+    sup = supplied_text(c)
+    how += (f" [REQUESTED {'encrypted' if c['enc'] else 'PLAIN'} / {'ISK' if c['isk'] else 'no ISK'}; SUPPLIED as well, although not requested: {sup} ("
+            + ("containerKeyBlobEncryptionKey / kdkAccessRights of the configuration, ISK keys of a certificate block configuration with useIsk: false" if "k" in c
+               else "arguments pck / kdk_access_rights of SecureBinary31, isk_cert + signature_provider + constraints + user_data of CertBlockV21 with ca_flag set")
+            + ")]" if sup else "")
     return (f"export #{t['k']} of a container{how} (P-{c['curve'] * 8}, {c['nkeys']} root keys, used {c['used']}, isk={c['isk']}, pck={c['pck']}, rights={c['rights']}, "
             f"enc={c['enc']}, {len(t['inp']['cmds'])} commands, history {c.get('hist', ['Export'])}) is not accepted by the loader automaton: "
             f"event #{matched + 1} {json.dumps(ev)[:500]}")
@@ -467,6 +543,46 @@ KEY_DIMS = ({(cv, cls, role, isk) for cv in (32, 48) for cls in KEY_CLASSES[1:] 
             | {(cv, cls, "isk", True) for cv in (32, 48) for cls in KEY_CLASSES[1:]})
 
 
+def supply_dims(cases):
+    """Which (curve, request: encrypted, request: ISK, supplied key bits, supplied access rights, ISK material supplied) the cases hold."""
+    return {(c["curve"], c["enc"], bool(c["isk"]), given_of(c)["pck"], given_of(c)["rights"], given_of(c)["isk"]) for c in cases}
+
+
+# every supply a PLAIN request admits (no / 128-bit / 256-bit key x no / every access right) with and without ISK on both curves; ISK material
+# supplied to containers without ISK, plain and encrypted
+SUPPLY_DIMS = ({(cv, False, ik, p, rt, True) for cv in (32, 48) for ik in (False, True) for p in (0, 128, 256) for rt in (-1, 0, 1, 2, 3)}
+               | {(cv, False, False, p, rt, False) for cv in (32, 48) for p in (0, 128, 256) for rt in (-1, 0, 1, 2, 3)}
+               | {(cv, True, False, p, rt, gi) for cv in (32, 48) for p in (128, 256) for rt in (0, 1, 2, 3) for gi in (False, True)})
+
+
+def as_if_encrypted(data, pck, rights, priv_pem):
+    """CANARY material, made without SPSDK: the file a builder that encrypts WHENEVER KEY MATERIAL IS AT HAND would have made of the plain
+    container `data` - every 256-byte chunk AES-CBC encrypted (zero IV) under the block key of (pck, timestamp, rights), the chain hashes
+    recomputed back to front, H(block 1) put into block 0, block 0 signed again with the container's own signing key.  Signature and chain
+    of the result hold; read WITH the key it is the container asked for, read as the PLAIN container that was requested it is not."""
+    import struct
+
+    from cryptography.hazmat.primitives import hashes, serialization
+    from cryptography.hazmat.primitives.asymmetric import ec
+    from cryptography.hazmat.primitives.asymmetric import utils as autils
+    from cryptography.hazmat.primitives.ciphers import Cipher, algorithms, modes
+
+    _, _, _, _, nblocks, bsize, ts, _, total, _, _, _ = struct.unpack_from("<4s2H3IQ4I16s", data)
+    hlen = bsize - 4 - rom.CHUNK
+    kdk = rom.kdf(pck, rom.kdf_fields(ts, rights, "kdk", hlen))
+    nxt, blocks = bytes(hlen), []
+    for i in range(nblocks, 0, -1):
+        at = total + (i - 1) * bsize
+        enc = Cipher(algorithms.AES(rom.kdf(kdk, rom.kdf_fields(i, rights, "blk", hlen))), modes.CBC(bytes(16))).encryptor()
+        b = data[at:at + 4] + nxt + enc.update(data[at + 4 + hlen:at + bsize]) + enc.finalize()
+        nxt = rom.H(hlen)(b).digest()
+        blocks.insert(0, b)
+    signed = data[:rom.HDR] + nxt + data[rom.HDR + hlen:total - 2 * hlen]
+    key = serialization.load_pem_private_key(open(priv_pem, "rb").read(), None)
+    sr, ss = autils.decode_dss_signature(key.sign(signed, ec.ECDSA(hashes.SHA256() if hlen == 32 else hashes.SHA384())))
+    return signed + sr.to_bytes(hlen, "big") + ss.to_bytes(hlen, "big") + b"".join(blocks)
+
+
 def dedupe(items):
     seen, out = set(), []
     for x in items:
@@ -521,10 +637,23 @@ def run(tier):
     cases = tour + sim
     if KEY_DIMS - key_dims(tour):
         raise Machinery(f"case GEN does not cover the value classes of the keys: missing {sorted(KEY_DIMS - key_dims(tour))[:6]}")
+    dsc_want = {(en, gp, ik, d) for en in (False, True) for gp in (False, True) for ik in (False, True) for d in ("none", "empty", "text") if gp or not en}
+    if SUPPLY_DIMS - supply_dims(tour) or dsc_want - {(c["enc"], bool(given_of(c)["pck"]), bool(c["isk"]), c.get("dsc")) for c in tour}:
+        raise Machinery(f"case GEN does not cover request x supply (curve, enc, isk, supplied key bits, rights, ISK material): missing "
+                        f"{sorted(SUPPLY_DIMS - supply_dims(tour))[:6]}")
     # histories x a seeded sample of configurations (every history with every class of configuration in the thorough tier)
-    cfgs = [c for c in tour if len(c["cmds"]) == 3 and c["cmds"][1]["dl"] == 300]
+    cfgs = [c for c in tour if len(c["cmds"]) == 3 and c["cmds"][1]["dl"] == 300 and given_of(c) == requested(c) and c.get("dsc", "any") == "any"]
     r.shuffle(cfgs)
     hcases = [dict(c, hist=h) for h in hists for c in cfgs[: (6 if quick else 60)]]
+    # ... and every history on containers that were handed material they did not ask for: plain + key + rights (each key size, with / without
+    # ISK), no ISK + ISK material (thorough: a seeded sample of 40 such configurations)
+    gcfgs = [c for c in tour if len(c["cmds"]) == 3 and c["cmds"][1]["dl"] == 300 and given_of(c) != requested(c) and c.get("dsc") == "text"]
+    r.shuffle(gcfgs)
+    gfix = [next((c for c in gcfgs if (c["curve"], bool(c["isk"]), c["enc"], given_of(c)["pck"], given_of(c)["rights"] >= 0, given_of(c)["isk"]) == want), None)
+            for want in ((32, False, False, 128, True, False), (48, True, False, 256, True, True), (48, False, True, 256, True, True))]
+    if None in gfix:
+        raise Machinery("case GEN holds no plain container with key material supplied / no encrypted container with ISK material supplied for the history cases")
+    hcases += [dict(c, hist=h) for h in hists for c in (gfix if quick else gfix + gcfgs[:40])]
     say(f"[C05] GEN: {len(tour)} tour cases, {len(sim)} simulated cases, {len(hists)} histories x configurations = {len(hcases)} history cases ({v.timer.s()}s)")
 
     # ---- configuration lane: cases of Sb31CfgGen (tours + simulation), built by SecureBinary31.load_from_config
@@ -540,6 +669,9 @@ def run(tier):
              "num": sorted({c["k"]["num"] for c in kcases}), "enc": sorted({c["k"]["encKey"] for c in kcases})}
     if KEY_DIMS - key_dims(ktour):
         raise Machinery(f"configuration case GEN does not cover the value classes of the keys: missing {sorted(KEY_DIMS - key_dims(ktour))[:6]}")
+    ksup = {(c["curve"], given_of(c)["pck"], given_of(c)["rights"] >= 0, given_of(c)["isk"]) for c in ktour if not c["enc"] and not c["isk"]}
+    if len(ksup) < 2 * 3 * 2 * 2 or not any(c["enc"] and not c["isk"] and given_of(c)["isk"] for c in ktour):
+        raise Machinery(f"configuration case GEN does not cover request x supply (plain: curve x key named x kdkAccessRights given x ISK keys named): {sorted(ksup)}")
     if len(kdims["pck"]) < 50 or len({x[:2] for x in kdims["cmd"]}) < 22 or len(kdims["sign"]) < 40 or len(kdims["num"]) < 4 or len(kdims["enc"]) < 3:
         raise Machinery(f"configuration case GEN does not cover its dimensions: { {k: len(x) for k, x in kdims.items()} }")
     say(f"[C05] GEN (configuration lane): {len(ktour)} tour cases, {len(ksim)} simulated cases; {len(kdims['pck'])} key classes (curve x size x form x value), "
@@ -604,6 +736,27 @@ def run(tier):
             kcanary = (f"container built by load_from_config ({8 * len(key)}-bit key as {kg['case']['k']['pckForm']}) accepted, the same file walked with the key "
                        "read with the other size rejected")
 
+    # ---- canary of REQUEST x SUPPLY: a plain container (nothing but the request supplied) that the loader accepts, re-told with key material
+    #      supplied as well, is accepted (no action reads inp.given); the file a builder that encrypts whenever key material is at hand would
+    #      have made of it (made HERE from the plain file: AES / CMAC / SHA / ECDSA of `cryptography`, no SPSDK) holds a valid signature and
+    #      chain, is accepted when read WITH the key as the encrypted container of the same input - and must be REJECTED as the plain
+    #      container that was requested
+    pacc = [t for t in acc if "k" not in t["case"] and not t["inp"]["enc"] and t["k"] == 1 and t["inp"]["cmds"] and given_of(t["case"])["pck"] == 0]
+    gcanary = "no accepted plain container of the class lane to build a canary from"
+    if pacc:
+        pg = execute(pacc[0]["plan"], "gcanary", keep_bytes=True)[0]
+        if pg.get("file") is not None and pg["ev"][-1]["ev"] == "Accept":
+            c, bits, rt = pg["case"], 128, 2
+            made = as_if_encrypted(pg["file"], pool().pck[bits], rt, pool().priv_path[c["curve"], isk_of(c) if c["isk"] else roots_of(c)[c["used"]]])
+            told = dict(pg["inp"], given=dict(pg["inp"]["given"], pck=bits, rights=rt))
+            canary += [{"id": "canary-supply-good", "inp": told, "ev": pg["ev"]},
+                       {"id": "canary-bad-supply-encrypted", "inp": told, "ev": rom.run(made, pg["rom"])},
+                       {"id": "canary-supply-good-read-with-key", "inp": dict(told, enc=True, pckBits=bits, rights=rt),
+                        "ev": rom.run(made, dict(pg["rom"], enc=True, pck=pool().pck[bits], rights=rt))}]
+            gcanary = ("plain container accepted, also when told that a part-common key and access rights were supplied; the same container with its "
+                       "chunks encrypted under that key (made independently, signature and chain valid, accepted when read with the key) rejected as "
+                       "a plain container")
+
     # ---- tamper: single-bit corruptions of files the executor walked to the end must be rejected by the loader's own checks
     kept = [t for t in acc if t.get("file") is not None and t["k"] == 1]
     if len(kept) < 10:
@@ -622,7 +775,8 @@ def run(tier):
         raise Machinery(f"canary failed: rejected {sorted(x for x in rej if str(x).startswith('canary'))}")
     v.extra["canary"] = ("known-good trace accepted; the same trace with a shifted block position, a changed input command, a false signature fact, "
                          "a wrong KDF iteration count, a skipped block: all rejected; the trace re-told for a used root key with a leading zero byte in X "
-                         "accepted, the same with a record whose key shows no such byte rejected; configuration lane: " + kcanary)
+                         "accepted, the same with a record whose key shows no such byte rejected; configuration lane: " + kcanary
+                         + "; request x supply: " + gcanary)
     v.sample({"case": acc[0]["case"], "export": acc[0]["k"], "events": acc[0]["ev"][:12]})
     v.sample({"case": acc[-1]["case"], "export": acc[-1]["k"], "events": [e for e in acc[-1]["ev"] if e["ev"] in ("Layout", "Block", "Section", "Cmd", "Accept")][:10]})
     n_acc = 0
@@ -655,6 +809,14 @@ def run(tier):
         "classes_accepted (curve, class, role, isk)": len(seen), "classes_in_the_case_space": len(KEY_DIMS),
         "signatures_verified": len(sigs), "signatures_with_leading_zero_byte_in_r": sum(1 for x in sigs if x[0]),
         "signatures_with_leading_zero_byte_in_s": sum(1 for x in sigs if x[1])}
+    sup_acc = [t for t in acc if given_of(t["case"]) != requested(t["case"])]
+    v.extra["request_x_supply"] = {
+        "cases_with_material_not_requested": sum(1 for c in allc if given_of(c) != requested(c)),
+        "of_them_plain_with_key_and_rights": sum(1 for c in allc if not c["enc"] and given_of(c)["pck"] and given_of(c)["rights"] >= 0),
+        "of_them_no_isk_with_isk_material": sum(1 for c in allc if not c["isk"] and given_of(c)["isk"]),
+        "accepted_exports": len(sup_acc), "accepted_exports_configuration_lane": sum(1 for t in sup_acc if "k" in t["case"]),
+        "classes_accepted (curve, enc, isk, supplied key bits, rights, ISK material)": len(supply_dims([t["case"] for t in acc]) & SUPPLY_DIMS),
+        "classes_in_the_case_space": len(SUPPLY_DIMS)}
     v.cov["rule"] = (
         "cases = TLC-enumerated tours (every configuration: P-256/P-384 x 10 root sets/used keys x no ISK / ISK / ISK + 4 / 96 bytes user data x plain / PCK 128 / 256 x "
         "rights 0..3 x NXP flag; VALUE CLASSES OF THE KEYS (tour R): on both curves every root set x used key with a pool key whose public point has a leading zero byte "
@@ -662,12 +824,18 @@ def run(tier):
         "(thorough: every vector of classes over the set) - the device's root-of-trust hash is computed by the harness from the fixed-width coordinates with hashlib; "
         "every data command with data lengths that end the stream at every 16-byte offset of blocks 1..3 (thorough 1..5) with paddings of the last "
         "word; every command type alone over a data-length menu (thorough: all lengths 0..530); every ordered pair of the 14 command types; no command; multi-block payloads) "
-        "+ TLC-simulated random command lists (<= 8 commands) over all configurations + every export history (<= 3 exports, commands added in between) x sampled "
+        "REQUEST x SUPPLY (tour G; Sb31Format!Givens): the constructors take key material and ISK certificate material as optional arguments next to the request - "
+        "both curves x no ISK / ISK / ISK + user data x plain / every encrypted mode, each with EVERY supply the request admits: plain containers with no / a 128-bit / "
+        "a 256-bit part-common key x no / every kdk_access_rights (15 combinations), containers without ISK with / without isk_cert + signature provider + "
+        "constraints + user data handed to CertBlockV21 (ca_flag set); the loader of a plain container holds no key, the loader of a container without ISK expects "
+        "the root key record to end the certificate block; each of these x the optional description left out / empty / given; every export history on three such containers (thorough: + 40 sampled); "
+        "+ TLC-simulated random command lists (<= 8 commands) over all configurations (a share of them with material that is not requested) + every export history (<= 3 exports, commands added in between) x sampled "
         "configurations; each case is concretised from VERIF_SEED, built through SecureBinary31 / Cmd* / CertBlockV21, exported, and the exported bytes are walked by the "
         "independent executor; TLC decides every trace. non-trivial = executor got beyond the header; distinct by (abstract case, export number). "
         "Configuration lane (Sb31CfgGen, containers built by SecureBinary31.load_from_config from a configuration dictionary + files of the shape the templates / schemas "
         "define): tours = part-common key {128, 256 bit} x {inline hex, inline 0x hex, text file, text file with newline, binary file} x {random, first byte zero, upper half "
-        "zero} x P-256 / P-384 x rights x isEncrypted given / omitted; plain with / without a key; signing key in signPrivateKey / mainRootCertPrivateKeyFile / signProvider x "
+        "zero} x P-256 / P-384 x rights x isEncrypted given / omitted; plain with / without a key; plain (tour P2): no key / a key of either size x kdkAccessRights absent / given x "
+        "the certificate block configuration naming the ISK keys although useIsk is false (tour S: the same for encrypted containers); signing key in signPrivateKey / mainRootCertPrivateKeyFile / signProvider x "
         "certBlock as nested configuration / binary x ISK off / on (root key of the nested configuration under each of the three names, new / legacy key names, "
         "mainRootCertId given / found from the key, user data) x root sets; every command kind of the schema (13; RESET has none) in every form (file / comma separated "
         "words / one number / one value / legacy `authentication`; plainInput x wrapping key name; every counter name; optional memory ids given / omitted) x every number "
@@ -694,6 +862,11 @@ def run(tier):
         "LOAD_KEY_BLOB offset and wrapping-key id fit 16 bits; ISK user data is a multiple of 4 up to 96 bytes (device limits)",
         "content of padding bytes (after data, after the last command, 64-byte tail) is logged but not asserted; the reserved words of the extra word block must be zero",
         "plain (unencrypted) containers are accepted by the model when the loader is told so (test variant; no header bit distinguishes them)",
+        "request x supply: what is REQUESTED must be supplied - an encrypted container without part-common key / access rights, an ISK container (ca_flag clear / "
+        "useIsk true) without the certificate material are outside the domain (the constructors refuse the first; the second is not a container the loader knows); "
+        "material that is supplied but not requested must change nothing (parameter documentation: 'needed if is_encrypted is True'); the class lane hands the key "
+        "material to SecureBinary31 (which always passes a timestamp on to SecureBinary31Commands); a SecureBinary31Commands object made by hand and put into a "
+        "container is not exercised",
         "configuration lane: the dictionary is handed to SecureBinary31.load_from_config (what `nxpimage sb31 export` calls after schema validation); YAML reading of the top-level "
         "file, check_config and the command line are not exercised (C19/C20 territory); the rendered configurations were validated against "
         "SecureBinary31.get_validation_schemas at development time (all valid except `call`, which is in sch_sb31.yaml but in no family's supported_commands)",
